@@ -23,6 +23,12 @@ package main
 //	      identity of constants (multi.go, collide.go); -extra "<style> <item>..." replays one case
 //	ident the real ssa.Generator.Constant on the same adversarial pairs: one Name only for one
 //	      bit pattern (collide.go); -extra "<s|u> <n1> <v1> <s|u> <n2> <v2>" replays one pair
+//	mpah  histories of 1..5 mpa calls SHARING their operand objects (every receiver / operand aliasing
+//	      pattern); every object observed after every call: a call writes its receiver only (mpahist.go);
+//	      -extra "<spec>,<spec>.. <step>/<step>.." replays one history
+//	uses  one constant bound to a name and used by several folds and run-time uses, against the same
+//	      program with fresh literals and the run-time variant (uses.go); -extra "<style> <s|u> <n>
+//	      <decls> <folds> <consumers>" replays one program
 
 import (
 	"fmt"
@@ -712,6 +718,10 @@ func main() {
 		modeMulti(cf, o)
 	case "ident":
 		modeIdent(cf, o)
+	case "mpah":
+		modeMpaHist(cf, o)
+	case "uses":
+		modeUses(cf, o)
 	default:
 		fmt.Fprintln(os.Stderr, "unknown mode", mode)
 		os.Exit(2)
